@@ -326,24 +326,29 @@ func c16run(c *ev.Ctx, r *ev.Report) {
 	if c.Thorough() {
 		bounds = []int{0, 1, 2, 3}
 	}
-	completed := map[int]int{}
+	// iterative context bounding ACROSS scenarios: all scenarios at bound 0, then all at bound
+	// 1, ...: a deadline cuts the deepest bound of the last scenarios, never a whole scenario
+	type scnState struct {
+		allowed  map[string]bool
+		outcomes map[string]bool
+		maxBound int
+		done     bool
+	}
+	sts := make([]*scnState, len(scns))
 	for si := range scns {
-		// every worker visits every scenario and explores its share of the first-level
-		// subtrees of that scenario's schedule tree (balanced; the root schedule is shard 0's)
-		s := &scns[si]
-		allowed := s.allowed()
-		outcomes := map[string]bool{}
-		maxBound := -1
-		for _, b := range bounds {
-			if b == 3 && len(s.ops) > 2 {
-				break
+		sts[si] = &scnState{allowed: scns[si].allowed(), outcomes: map[string]bool{}, maxBound: -1}
+	}
+	for _, b := range bounds {
+		for si := range scns {
+			// every worker visits every scenario and explores its share of the first-level
+			// subtrees of that scenario's schedule tree (balanced; the root schedule is shard 0's)
+			s, ss := &scns[si], sts[si]
+			if ss.done || (b == 3 && len(s.ops) > 2) {
+				continue
 			}
+			allowed, outcomes := ss.allowed, ss.outcomes
 			bad := 0
 			st := vshim.Explore(b, (c.Shard+int(c.Seed))%c.NShard, c.NShard, s.bodies, func(x vshim.Exec, ch []int) bool {
-				if x.Preemptions() != b && b > 0 {
-					// executions with fewer preemptions were already checked at the lower bound;
-					// they are re-run here only as prefixes (still counted as transitions)
-				}
 				oc := fmt.Sprint(x.Deadlock, "\x00", vecOf(x))
 				if !outcomes[oc] {
 					outcomes[oc] = true
@@ -380,22 +385,25 @@ func c16run(c *ev.Ctx, r *ev.Report) {
 				if c.Expired() {
 					r.Exhaustive = false
 				}
-				break
+				ss.done = true
+				continue
 			}
-			maxBound = b
+			ss.maxBound = b
 			if bad > 0 {
-				break
+				ss.done = true
 			}
 		}
-		completed[maxBound]++
-		r.SetAdd(fmt.Sprintf("scenario_shards_completed_at_preemption_bound_%d", maxBound), fmt.Sprintf("%d/%d", si, c.Shard))
+		runtime.GC()
+	}
+	for si := range scns {
+		s, ss := &scns[si], sts[si]
+		r.SetAdd(fmt.Sprintf("scenario_shards_completed_at_preemption_bound_%d", ss.maxBound), fmt.Sprintf("%d/%d", si, c.Shard))
 		if c.Shard == 0 {
 			r.Count("scenarios", 1)
 		}
 		if si%7 == 0 && c.Shard == 0 {
-			r.Sample(map[string]interface{}{"scenario": s.name(), "bound_completed": maxBound, "distinct_outcomes": len(outcomes)})
+			r.Sample(map[string]interface{}{"scenario": s.name(), "bound_completed": ss.maxBound, "distinct_outcomes": len(ss.outcomes)})
 		}
-		runtime.GC()
 	}
 	// companion pass (one worker starts it)
 	if c.Shard == 0 {
